@@ -85,7 +85,19 @@ Definition ser_event (task_of : nat -> nat) (e : event) : list N :=
   | EAssertFail => [9]
   end.
 
-Definition ser_outcome (ntasks : nat) (o : outcome) : list N :=
+Definition is_group (k : tkind) : bool := match k with KGroup => true | _ => false end.
+Definition is_exp (k : tkind) : bool := match k with KExperiment => true | _ => false end.
+
+(* the dependency output paths an operation was given: for each direct dependency that has an output
+   directory at that moment, (dependency, whether it is the version created in this invocation) *)
+Definition snap_paths (tasks : list tdef) (sn : nat * list (nat * bool)) : list (nat * bool) :=
+  if is_group (td_kind (tdef_of tasks (fst sn))) then []
+  else filter (fun db => let d := tdef_of tasks (fst db) in
+                         negb (is_group (td_kind d)) && (negb (is_exp (td_kind d)) || snd db || negb (td_sr d)))
+              (snd sn).
+
+Definition ser_outcome (tasks : list tdef) (o : outcome) : list N :=
+  let ntasks := length tasks in
   match o with
   | OLoadError r => ser_result r
   | OPlanFuel => [10]
@@ -100,6 +112,7 @@ Definition ser_outcome (ntasks : nat) (o : outcome) : list N :=
     ++ ser_list ser_nat (p_cached pl)
     ++ ser_list ser_nat (sr_calls ps)
     ++ ser_list ser_nat (nv_calls ps)
+    ++ ser_list (fun sn => [N.of_nat (fst sn)] ++ ser_list (fun db => [N.of_nat (fst db)] ++ ser_bool (snd db)) (snap_paths tasks sn)) (snaps ps)
     ++ match evs with
        | None => [11]
        | Some l => 12 :: ser_list (ser_event task_of) l
@@ -107,4 +120,4 @@ Definition ser_outcome (ntasks : nat) (o : outcome) : list N :=
   end.
 
 Definition case_hash (fuel : nat) (tasks : list tdef) (c : run_cfg) : N :=
-  pack (ser_outcome (length tasks) (cond_run fuel tasks c)).
+  pack (ser_outcome tasks (cond_run fuel tasks c)).
